@@ -7,6 +7,13 @@ usage: mutsweep.py [file.go ...] [--max N]"""
 import re, os, sys, subprocess, tempfile, shutil, random, json
 from multiprocessing import Pool
 ROOT=os.path.dirname(os.path.dirname(os.path.abspath(__file__)))
+# the analyser is snapshotted once per run: a rebuild during a long sweep must not mix versions
+import atexit as _ae, shutil as _sh, tempfile as _tf
+HLINT=os.environ.get('HLINT_SNAPSHOT')
+if not HLINT:
+    _d=_tf.mkdtemp(prefix='/tmp/hlintbin.'); HLINT=_d+'/hlint'; _sh.copy2(ROOT+'/bin/hlint',HLINT); os.environ['HLINT_SNAPSHOT']=HLINT
+    _pid=os.getpid(); _ae.register(lambda: os.getpid()==_pid and _sh.rmtree(_d,ignore_errors=True))
+
 ENV=dict(os.environ,GOFLAGS='-mod=mod',GOPROXY='off',GOSUMDB='off',GOTOOLCHAIN='local')
 OPS=[(r' <= ',' < '),(r' < ',' <= '),(r' >= ',' > '),(r' > ',' >= '),(r' == ',' != '),(r' != ',' == '),
      (r' && ',' || '),(r' \|\| ',' && '),(r' \+ 1\b',' + 2'),(r' - 1\b',' - 2'),(r'\b0x([0-9a-fA-F]{2})\b',None),
@@ -45,7 +52,7 @@ def run(m):
         if b.returncode!=0 or not b.stdout.startswith('ok'): return None
         vd=tempfile.mkdtemp(prefix='/tmp/mutswv.'); os.mkdir(vd+'/evidence'); shutil.copy(ROOT+'/known_findings.json',vd)
         try:
-            o=subprocess.run([ROOT+'/bin/hlint','-property','all','-repo',d,'-verif',vd],capture_output=True,text=True,timeout=600).stdout
+            o=subprocess.run([HLINT,'-property','all','-repo',d,'-verif',vd],capture_output=True,text=True,timeout=600).stdout
         finally: shutil.rmtree(vd)
         hits=set(); cur=None
         for l in o.splitlines():
